@@ -274,8 +274,14 @@ class MatrixCreator {
         nbSupps_(0),
         rhs_(topo.nbCells()),
         initial_(topo.nbCells()),
-        hasNonZero_(topo.nbCells()) {
+        hasNonZero_(topo.nbCells()),
+        diagonal_(topo.nbCells(), 0.0f),
+        isAnchored_(topo.nbCells(), 0) {
     mat_.reserve(2 * topo_.nbPins());
+    component_.resize(topo.nbCells());
+    for (int i = 0; i < topo.nbCells(); ++i) {
+      component_[i] = i;
+    }
   }
 
   int nbCells() const { return nbCells_; }
@@ -344,6 +350,22 @@ class MatrixCreator {
 
   // Whether the cell has a non-zero on the diagonal
   std::vector<char> hasNonZero_;
+
+  // Sum of the diagonal entries of each variable
+  std::vector<float> diagonal_;
+
+  // Connected components of the variables (union-find), and whether a
+  // variable is directly tied to a fixed position
+  std::vector<int> component_;
+  std::vector<char> isAnchored_;
+
+  int findComponent(int c) {
+    while (component_[c] != c) {
+      component_[c] = component_[component_[c]];
+      c = component_[c];
+    }
+    return c;
+  }
 };
 
 void MatrixCreator::addMovingPin(int c1, int c2, float offs1, float offs2,
@@ -361,6 +383,9 @@ void MatrixCreator::addMovingPin(int c1, int c2, float offs1, float offs2,
   rhs_[c2] += weight * (offs1 - offs2);
   hasNonZero_[c1] = 1;
   hasNonZero_[c2] = 1;
+  diagonal_[c1] += weight;
+  diagonal_[c2] += weight;
+  component_[findComponent(c1)] = findComponent(c2);
 }
 
 void MatrixCreator::addFixedPin(int c1, float offs1, float pos, float weight) {
@@ -368,6 +393,10 @@ void MatrixCreator::addFixedPin(int c1, float offs1, float pos, float weight) {
   mat_.emplace_back(c1, c1, weight);
   rhs_[c1] += weight * (pos - offs1);
   hasNonZero_[c1] = 1;
+  diagonal_[c1] += weight;
+  if (weight > 0.0f) {
+    isAnchored_[c1] = 1;
+  }
 }
 
 void MatrixCreator::addPin(int c1, int c2, float offs1, float offs2,
@@ -404,6 +433,9 @@ int MatrixCreator::addCell(float initialPos) {
   initial_.push_back(initialPos);
   rhs_.push_back(0.0f);
   hasNonZero_.push_back(0);
+  diagonal_.push_back(0.0f);
+  isAnchored_.push_back(0);
+  component_.push_back(component_.size());
   int ret = nbCells_ + nbSupps_;
   nbSupps_++;
   return ret;
@@ -612,6 +644,21 @@ void MatrixCreator::finalize() {
       mat_.emplace_back(i, i, 1.0e-8f);
     }
     hasNonZero_[i] = 1;
+  }
+  // Nets that are not tied to any fixed position, directly or through other
+  // nets, make the system singular (any translation is optimal): conjugate
+  // gradient then amplifies rounding noise without bound. Tie such floating
+  // components very weakly to the origin; anchored components are untouched.
+  std::vector<char> componentAnchored(matSize(), 0);
+  for (int i = 0; i < matSize(); ++i) {
+    if (isAnchored_[i]) {
+      componentAnchored[findComponent(i)] = 1;
+    }
+  }
+  for (int i = 0; i < matSize(); ++i) {
+    if (!componentAnchored[findComponent(i)] && diagonal_[i] > 0.0f) {
+      mat_.emplace_back(i, i, diagonal_[i] * 9.5367431640625e-07f);  // 2^-20
+    }
   }
 }
 
